@@ -524,6 +524,9 @@ func constCond(v ssa.Value) (bool, bool) {
 		}
 		cx, okx := x.X.(*ssa.Const)
 		cy, oky := x.Y.(*ssa.Const)
+		if okx && cx.Value == nil && KnownNonNil(x.Y) || oky && cy.Value == nil && KnownNonNil(x.X) {
+			return x.Op == token.NEQ, true // a freshly made slice / map / allocation is never nil
+		}
 		if !okx || !oky {
 			return false, false
 		}
@@ -717,6 +720,9 @@ func EnumPaths(fn *ssa.Function, maxVisit, limit int, f func(Path)) bool {
 		} else {
 			cx, okx := x.(*ssa.Const)
 			cy, oky := y.(*ssa.Const)
+			if okx && cx.Value == nil && KnownNonNil(y) || oky && cy.Value == nil && KnownNonNil(x) {
+				return !want, nil
+			}
 			if okx && oky {
 				switch {
 				case cx.Value == nil && cy.Value == nil:
@@ -816,6 +822,17 @@ func EnumPaths(fn *ssa.Function, maxVisit, limit int, f func(Path)) bool {
 		return true
 	}
 	return rec(fn.Blocks[0], -1)
+}
+
+// KnownNonNil: values that cannot be nil by construction.
+func KnownNonNil(v ssa.Value) bool {
+	switch x := StripConv(v).(type) {
+	case *ssa.MakeSlice, *ssa.MakeMap, *ssa.MakeChan, *ssa.MakeClosure, *ssa.Alloc, *ssa.FieldAddr, *ssa.IndexAddr, *ssa.Function, *ssa.Global:
+		return true
+	case *ssa.Slice:
+		return KnownNonNil(x.X)
+	}
+	return false
 }
 
 // sameOperand: identical SSA value, or equal constants (every use of a constant is its own *ssa.Const).
